@@ -78,16 +78,30 @@ Lasts(n)      == {p \in UNION {{i * (n \div k) : i \in 0..k} : k \in {2, 4, 8, 1
 
 \* random non-zero vector with zeros forced at the positions of `zs`
 NZ(P, e) == IF e = Z(Len(e)) THEN One(Len(e)) ELSE e
-\* long extension-field vectors draw their elements from a pool of PoolK seeded values, so that TLC
-\* computes PoolK (expensive) extension inverses per case instead of n
-PoolK == 61
-Pooled(d, n) == d > 1 /\ n > 200
-ElemNo(d, s, n, i) == IF Pooled(d, n) THEN 1 + (Rnd(s + 3, i) % PoolK) ELSE i
-VecWithZeros(P, d, s, n, zs) == Mat([i \in 1..n |-> IF i \in zs THEN Z(d) ELSE NZ(P, RElem(P, d, s, ElemNo(d, s, n, i)))], n)
-InvPooled(P, d, s, n, v) ==
-  IF ~Pooled(d, n) THEN InvSpec(P, v)
-  ELSE LET pool == Mat([k \in 1..PoolK |-> EInv(P, NZ(P, RElem(P, d, s, k)))], PoolK)
-       IN Mat([i \in 1..n |-> IF v[i] = Z(d) THEN Z(d) ELSE pool[ElemNo(d, s, n, i)]], n)
+\* extension-field vectors draw their elements from a pool of PoolK seeded non-zero values per field,
+\* whose (expensive) FieldP!EInv inverses TLC computes once per run (constant definitions)
+PoolK == 127
+MkPool(P, d) == Mat([k \in 1..PoolK |-> NZ(P, RElem(P, d, Seed + 7 * d + P, k))], PoolK)
+Pool257x2 == MkPool(257, 2)
+Pool257x3 == MkPool(257, 3)
+Pool40961x2 == MkPool(40961, 2)
+Pool40961x3 == MkPool(40961, 3)
+PoolInv257x2 == Map1(LAMBDA x : EInv(257, x), Pool257x2)
+PoolInv257x3 == Map1(LAMBDA x : EInv(257, x), Pool257x3)
+PoolInv40961x2 == Map1(LAMBDA x : EInv(40961, x), Pool40961x2)
+PoolInv40961x3 == Map1(LAMBDA x : EInv(40961, x), Pool40961x3)
+PoolOf(P, d) == CASE P = 257 /\ d = 2 -> Pool257x2 [] P = 257 /\ d = 3 -> Pool257x3
+                  [] P = 40961 /\ d = 2 -> Pool40961x2 [] P = 40961 /\ d = 3 -> Pool40961x3
+PoolInvOf(P, d) == CASE P = 257 /\ d = 2 -> PoolInv257x2 [] P = 257 /\ d = 3 -> PoolInv257x3
+                     [] P = 40961 /\ d = 2 -> PoolInv40961x2 [] P = 40961 /\ d = 3 -> PoolInv40961x3
+ElemNo(s, i) == 1 + (Rnd(s + 3, i) % PoolK)
+VecWithZeros(P, d, s, n, zs) ==
+  IF d = 1 THEN Mat([i \in 1..n |-> IF i \in zs THEN Z(d) ELSE NZ(P, RElem(P, d, s, i))], n)
+  ELSE LET pool == PoolOf(P, d) IN Mat([i \in 1..n |-> IF i \in zs THEN Z(d) ELSE pool[ElemNo(s, i)]], n)
+\* the inverse-or-zero vector of v = VecWithZeros(P, d, s, n, _)
+InvVec(P, d, s, n, v) ==
+  IF d = 1 THEN InvSpec(P, v)
+  ELSE LET pinv == PoolInvOf(P, d) IN Mat([i \in 1..n |-> IF v[i] = Z(d) THEN Z(d) ELSE pinv[ElemNo(s, i)]], n)
 Pattern(P, d, s, n, pat) ==
   CASE pat[1] = "none"  -> VecWithZeros(P, d, s, n, {})
     [] pat[1] = "all"   -> VecWithZeros(P, d, s, n, 1..n)
@@ -149,7 +163,7 @@ Scenario(c) ==
   CASE c.op = "inv" ->
          LET s == Stream(110 + c.d, c.n)
              v == Pattern(c.P, c.d, s, c.n, c.pat)
-             inv == InvPooled(c.P, c.d, s, c.n, v)
+             inv == InvVec(c.P, c.d, s, c.n, v)
          IN IF InvCheck(c.P, v, inv)
               THEN [op |-> "inv", P |-> c.P, d |-> c.d, pat |-> c.pat[1], v |-> JP(v), exp |-> JP(inv)]
               ELSE [op |-> "error"]
